@@ -104,6 +104,64 @@ void explore07(Options const& o, std::vector<Shim*> const&, std::vector<Shim*> c
       rec.add_states(static_cast<u64>(W), static_cast<u64>(W), static_cast<u64>(W));
       }
     }
+    // adaptive boundary windows: wherever the NaN-ness of a result changes between two neighbouring members of S the exact argument
+    // at which it changes is located by bisection (a range guard of the implementation, at whatever constant it computes), and every
+    // raw value within 2048 of it is executed under the sanitizer: guards that are off by a rounding term fail just inside them
+    {
+    static const char* UN4[U_COUNT] = { "operator- (unary)", "abs", "isnan", "floor", "ceil", "sin", "cos", "tan", "atan", "asin", "acos", "sqrt", "detail::sqrt_abacus", "detail::sqrt_std_math",
+                                        "sqrt_aprox", "atan_index_aprox", "atan_aprox", "sin_angle(fixed_t)", "cos_angle(fixed_t)", "tan_angle(fixed_t)",
+                                        "x += x (same object)", "x -= x (same object)", "x *= x (same object)", "x /= x (same object)" };
+    std::vector<i64> Sx = S_set(6, 2);
+    u64 nwin = 0;
+    for( int op = 0; op < U_COUNT; ++op )
+      {
+      if( op == U_ISNAN ) continue;
+      std::vector<char> isn(Sx.size());
+      parallel_blocks((Sx.size() + 1023) / 1024, o.threads, [&](size_t blk, int) { for( size_t i = blk * 1024; i < std::min(Sx.size(), (blk + 1) * 1024); ++i ) { i64 g = 0; int sg = guarded([&]{ g = s->fm_un(op, Sx[i]); }); isn[i] = sg ? 2 : fx_isnan(g) ? 1 : 0; } });
+      std::vector<i64> bounds;
+      for( size_t i = 1; i < Sx.size(); ++i ) if( isn[i] != isn[i - 1] && isn[i] != 2 && isn[i - 1] != 2 && Sx[i] - Sx[i - 1] > 1 )
+        {
+        i64 lo = Sx[i - 1], hi = Sx[i]; char vlo = isn[i - 1];
+        while( hi - lo > 1 ) { i64 mid = lo + (hi - lo) / 2; i64 g = 0; int sg = guarded([&]{ g = s->fm_un(op, mid); }); char v = sg ? 2 : fx_isnan(g) ? 1 : 0; if( v == vlo ) lo = mid; else hi = mid; }
+        bounds.push_back(hi);
+        }
+      // ... and wherever a constant tail begins: beyond a range guard many functions return one fixed value (NaN, a saturated result, or
+      // whatever the series makes of a NaN argument); the first argument of that tail is located the same way
+      {
+      std::vector<i64> val(Sx.size()); std::vector<char> okv(Sx.size());
+      parallel_blocks((Sx.size() + 1023) / 1024, o.threads, [&](size_t blk, int) { for( size_t i = blk * 1024; i < std::min(Sx.size(), (blk + 1) * 1024); ++i ) { i64 g = 0; int sg = guarded([&]{ g = s->fm_un(op, Sx[i]); }); val[i] = g; okv[i] = sg == 0; } });
+      auto same = [&](i64 x, i64 v) { i64 g = 0; int sg = guarded([&]{ g = s->fm_un(op, x); }); return sg == 0 && g == v; };
+      if( Sx.size() > 8 )
+        {
+        size_t j = Sx.size() - 1; while( j > 0 && okv[j - 1] && okv[j] && val[j - 1] == val[Sx.size() - 1] ) --j;          // tail towards +max
+        if( okv[Sx.size() - 1] && Sx.size() - j >= 3 && j > 0 && Sx[j] - Sx[j - 1] > 1 )
+          { i64 lo = Sx[j - 1], hi = Sx[j], v = val[Sx.size() - 1]; while( hi - lo > 1 ) { i64 mid = lo + (hi - lo) / 2; if( same(mid, v) ) hi = mid; else lo = mid; } bounds.push_back(hi); }
+        size_t k = 0; while( k + 1 < Sx.size() && okv[k + 1] && okv[k] && val[k + 1] == val[0] ) ++k;                           // tail towards lowest
+        if( okv[0] && k >= 2 && k + 1 < Sx.size() && Sx[k + 1] - Sx[k] > 1 )
+          { i64 lo = Sx[k], hi = Sx[k + 1], v = val[0]; while( hi - lo > 1 ) { i64 mid = lo + (hi - lo) / 2; if( same(mid, v) ) lo = mid; else hi = mid; } bounds.push_back(lo); }
+        }
+      }
+      if( bounds.size() > 64 ) bounds.resize(64);      // a function whose NaN-ness alternates (poles of tan) is covered by its own property
+      for( i64 b : bounds )
+        {
+        ++nwin;
+        const i64 Wd = 2048;
+        parallel_blocks(8, o.threads, [&](size_t blk, int) {
+          LocalViol lv(rec); ClsCache cc(rec);
+          for( i64 x = b - Wd + static_cast<i64>(blk) * 512; x < b - Wd + static_cast<i64>(blk + 1) * 512; ++x )
+            {
+            if( !fx_finite(x) ) continue;
+            Event e2; if( run_checked(s, [&]{ s->fm_un(op, x); }, e2) ) continue;
+            int c = cc.get("C07." + sanitize_cls(UN4[op]) + "." + e2.kind);
+            lv.hit(c, (static_cast<u64>(ci) << 56) | (0xffbull << 40) | (static_cast<u64>(op) << 32) | static_cast<u64>(static_cast<uint32_t>(x)), [=]{ Example xm; xm.entry = UN4[op]; xm.cfg = s->name; xm.shape = "window around a located range guard (the result changes its NaN-ness or becomes constant at " + to_s(b) + ")"; xm.inputs = {{"x", to_s(x)}};
+              xm.expected = "returns normally without undefined behaviour"; xm.got = e2.where; xm.rcase = "entry"; xm.rin = { UN4[op], to_su(static_cast<u64>(x)), "0" }; return xm; });
+            }
+          });
+        rec.add_states(4096, 4096, 4096);
+        }
+      }
+    rec.count("located_range_guards", nwin);
+    }
     // sin/cos_angle_aprox under the sanitizer (the out-of-bounds index of std::array is reported by -fsanitize=bounds before the read)
     {
     std::vector<i64> ds; for( i64 x : S_set(6,4,true,true) ) ds.push_back(static_cast<int32_t>(static_cast<uint32_t>(static_cast<u64>(x))));
